@@ -11,9 +11,14 @@ def sh(cmd, cwd, env=None):
     return subprocess.run(cmd, shell=True, cwd=cwd, capture_output=True, text=True, env=env)
 
 def main():
-    for pid in sys.argv[1:]:
-        wt = "/tmp/wt-c%s" % pid[1:]
-        src = "/tmp/seed-out/%s" % pid
+    args = sys.argv[1:]
+    rnd = 1
+    if args and args[0] == "--round":
+        rnd = int(args[1])
+        args = args[2:]
+    for pid in args:
+        wt = ("/tmp/wt-c%s" if rnd == 1 else "/tmp/wu-c%s") % pid[1:]
+        src = ("/tmp/seed-out/%s" if rnd == 1 else "/tmp/seed%d/%%s" % rnd) % pid
         env = dict(os.environ, PYTHONPATH=wt)
         for k in (1, 2, 3):
             patch = os.path.join(src, "patch%d.diff" % k)
@@ -36,7 +41,7 @@ def main():
                 pid, k, clean.returncode, broken.returncode, tests, files, "CONFIRMED" if ok else "REJECTED"))
             if not ok:
                 continue
-            out = os.path.join(HERE, "seeded", "%s-%d" % (pid, k))
+            out = os.path.join(HERE, "seeded", "%s-%d" % (pid, k + 2 * (rnd - 1)))
             os.makedirs(out, exist_ok=True)
             shutil.copy(patch, os.path.join(out, "patch.diff"))
             shutil.copy(demo, os.path.join(out, "demo.py"))
